@@ -103,9 +103,14 @@ func init() {
 				if ctxMode == 1 {
 					rt.Default = rec
 				}
+				rt.LitMismatch = ""
 				res := im.NewParser().Parse(seqTypes(im, seq), rec, ctxMode, len(seq)+4)
 				st.add("parses", 1)
 				cs := map[string]any{"tokens": append([]string(nil), seq...), "log": logStr(rec), "context_mode": ctxMode}
+				if rt.LitMismatch != "" {
+					st.violation("C03", key+" literal", pre+"the action that ran is not the action of the grammar: "+rt.LitMismatch, cs)
+					return
+				}
 				if res.Panic != "" || res.Budget || res.Err != nil || res.ErrOther != "" {
 					st.violation("C03", key, fmt.Sprintf("%sParse failed on a sentence (panic=%q err=%v)", pre, res.Panic, res.Err != nil), cs)
 					return
